@@ -64,7 +64,11 @@ def handle (j : J) : Except String J := do
       | "okMatch" => pure Crud.okMatch
       | "createRetry" => pure Crud.createRetry
       | s => throw s!"bad crud {s}"
-    pure (ofRun (rfRun (← (← j.getArr "pre").mapM toPred) (← (← j.getArr "post").mapM toPred) crud))
+    let lk ← match (j.getD "lookup").str? with
+      | some "found" => pure Lookup.found
+      | some "unknownKind" => pure Lookup.unknownKind
+      | _ => pure Lookup.notNeeded
+    pure (ofRun (rfRun (← (← j.getArr "pre").mapM toPred) (← (← j.getArr "post").mapM toPred) lk crud))
   | op => throw s!"bad op {op}"
 
 end Koreo.Driver.C13
